@@ -5,24 +5,33 @@ import UralModel.Lemmas.CanonModes
 /-!
 # C02 — canonicalize_url yields one canonical spelling and is idempotent
 
-Proved here, for all strings: the spelling changes that the *cleaning pass* and the
-*component rules* of the model absorb — control characters, surrounding whitespace, hex case,
-default port, host rule; and, component by component (second half of this file): idempotence
-in both modes and the four mode round trips (path, userinfo items, query, fragment; the mode
-round trips that start from quoted mode under the explicit exclusion of KF-C02-1's class,
-`cleanStr` / `pathClean`), dot-segment insertion (`canonPath` factors through the resolved
-view) and escape-equivalence (`%41` vs `A`, raw space vs `%20`, `é` vs `%C3%A9`).  What is NOT
-a theorem: that CPython's `urlsplit` gives the printed components back (the whole-function
-statement is the composition of these component theorems with that re-parse), and punycode
-vs Unicode spelling of a label: decided on every run by the oracle
-(`canonicalize(T(u)) == canonicalize(u)` over every transformation of the statement) and by
-the model-vs-implementation comparison of both spellings.
+This file holds the COMPONENT level: lemmas about the stages of the cleaning pass and about the
+component rules of the model, for all strings — and, component by component (second half of
+this file): idempotence in both modes and the four mode round trips (path, userinfo items,
+query, fragment; the mode round trips that start from quoted mode under the explicit exclusion
+of KF-C02-1's class, `cleanStr` / `pathClean`), dot-segment insertion (`canonPath` factors
+through the resolved view) and escape-equivalence.
+
+Several statements of the first half are congruences whose hypothesis is an intermediate value
+of the implementation (`clean_control_irrelevant`, `hex_case_irrelevant`, `canon_default_port`,
+`unquote_respects_equiv`): they are LEMMAS.  The clauses of the property they serve are stated
+on STRINGS, at whole-function level, in `Props/C02Spelling.lean` (`canon_surrounding`,
+`canon_control_inserted`, `canon_hex_case_step`, `canon_scheme_string`, `canon_host_case_string`,
+`canon_default_port_string`, `canon_empty_query_string`, `canon_empty_fragment_string`,
+`canon_dot_segments_string`, `canon_path_escaped_*_string`, `canon_punycode_label_string`), with
+the substitution laws of the safe unquoters in `Lemmas/C02String.lean`
+(`safelyUnquote_escaped_ascii` / `_space` / `_utf8`); whole-function idempotence is in
+`Props/C02Whole.lean`.  What is NOT a theorem at whole-function level is listed in `UNPROVED` of
+`harness/props/C02.py` and decided on every run by the oracle
+(`canonicalize(T(u)) == canonicalize(u)` over every transformation of the statement) and by the
+model-vs-implementation comparison of both spellings.
 -/
 namespace Ural.Props.C02
 open Ural Ural.Py Ural.UrlParts Ural.Quote Ural.Canonicalize Ural.Normpath
 
-/-- embedded control characters never change the result: the cleaning pass depends on the
-input only through its control-stripped form -/
+/-- LEMMA (a congruence: the hypothesis is the first stage of `cleanUrl` itself): the cleaning
+pass depends on the input only through its control-stripped form.  The clause "embedded control
+characters never change the result" is `canon_control_inserted` (`Props/C02Spelling.lean`) -/
 theorem clean_control_irrelevant (u v dp : Str) (h : stripControl u = stripControl v) :
     Canonicalize.cleanUrl u dp = Canonicalize.cleanUrl v dp := by
   simp [Canonicalize.cleanUrl, h]
@@ -73,20 +82,26 @@ theorem strip_surrounding (ws1 ws2 s : Str) (h1 : ws1.all isSpace = true)
     rw [e2, e3, e1]
   · rw [e, rstrip_append_of_all_space _ _ h2]
 
-/-- an explicitly written default port (80 for http, 443 for https) is the same as no port -/
+/-- LEMMA on records (both sides have the same `netloc`, which is not what two spellings of a
+URL give): the port rule drops the scheme's default port.  The clause "writing the default port
+explicitly never changes the result" is `canon_default_port_string` (`Props/C02Spelling.lean`:
+two STRINGS with different authorities) -/
 theorem canon_default_port (puny : Str → Str) (quoted sf : Bool) (p : Parsed) (n : Nat)
     (h : defaultPort p.scheme = some n) :
     canonComps puny quoted sf { p with port := some n } = canonComps puny quoted sf { p with port := none } := by
   simp [canonComps, h, hasMore, hostEndsUrl, portRule]
 
-/-- the hex-digit case of escapes never changes the result: `upper_quoted` (applied to the
-whole URL before anything else) sends two strings whose scans differ only in the case of hex
-digits inside escapes to the same string -/
+/-- LEMMA (`congrArg render`; it speaks of `upperQuoted` and of the scanner's tokens, not of
+`canonicalizeUrl`): two strings whose scans agree up to the case of hex digits inside escapes have
+the same `upper_quoted`.  The clause "lower-case hex digits never change the result" is
+`canon_hex_case_step` / `canon_hex_case` (`Props/C02Spelling.lean`, on string decompositions
+`x ++ %h1h2 ++ y`) -/
 theorem hex_case_irrelevant (a b : Str)
     (h : (tokens a).map upperTok = (tokens b).map upperTok) : upperQuoted a = upperQuoted b := by
   simp [upperQuoted, h]
 
-/-- the canonical host is a fixed point of the host rule (case, punycode) -/
+/-- the canonical host is a fixed point of the host rule (idempotence; letter case of the host
+is `canon_host_case_string`, punycode vs Unicode `canon_punycode_label_string`) -/
 theorem host_idempotent (puny : Str → Str) (hp : PunyLaws puny) (h : Str) :
     canonHost puny (canonHost puny h) = canonHost puny h := canonHost_idem puny hp h
 
@@ -225,10 +240,13 @@ theorem insert_updir_segment (a x b : Str) (m : Bool) (h : absPath a = true)
 
 /-! ## escape-equivalence -/
 
-/-- **two spellings with the same normal form are unquoted to the same string**, for each of
-the four safe unquoters: `normItems U s` is the list of what each token of `s` is for the
-unquoter (kept escape, decoded ASCII character, pending byte), with raw non-ASCII characters
-spelled as their UTF-8 bytes.  `%41` ≡ `A`, raw space ≡ `%20`, `é` ≡ `%C3%A9` ≡ `%c3%a9`. -/
+/-- LEMMA (`normItems U` is the first two stages of `safelyUnquote U` itself): two strings
+with the same item list are unquoted to the same string — `normItems U s` is the list of what each
+token of `s` is for the unquoter (kept escape, decoded ASCII character, pending byte), with raw
+non-ASCII characters spelled as their UTF-8 bytes.  The independent statements of
+escape-equivalence are the three substitution laws on strings of `Lemmas/C02String.lean`:
+`safelyUnquote_escaped_ascii` (`%41` vs `A`), `safelyUnquote_escaped_space` (`%20` vs a raw
+space), `safelyUnquote_escaped_utf8` (`é` vs `%C3%A9` / `%c3%a9`), proved from this lemma. -/
 theorem unquote_respects_equiv (U : List UInt8) (a b : Str) (h : normItems U a = normItems U b) :
     safelyUnquote U a = safelyUnquote U b :=
   Quote.unquote_respects_equiv U a b h
